@@ -112,6 +112,8 @@ enum FcSlot {
     source: String,
     source_map: String,
     deps: Vec<(String, Option<String>, Option<String>)>,
+    /// debug rendering of the declaration-file program (only with `fast_check_dts`)
+    dts: Option<String>,
   },
   Error(Vec<String>),
 }
@@ -140,6 +142,14 @@ fn snapshot(graph: &ModuleGraph) -> Snapshot {
                   )
                 })
                 .collect(),
+              dts: fc.dts.as_ref().map(|d| {
+                format!(
+                  "{:?} // {} diagnostics: {:?}",
+                  d.program,
+                  d.diagnostics.len(),
+                  d.diagnostics.iter().map(|x| x.to_string()).collect::<Vec<_>>()
+                )
+              }),
             },
           );
         }
@@ -166,7 +176,15 @@ struct PkgSrc {
   /// path -> declaration lines
   files: BTreeMap<String, Vec<String>>,
   exports: BTreeMap<String, String>,
+  /// a workspace member (local files under `MEMBER_BASE`) instead of a
+  /// registry package
+  member: bool,
+  /// the root imports this export of the package (a used export is an
+  /// entrypoint of the analysis and part of the cache key)
+  root_imports_extra: bool,
 }
+
+const MEMBER_BASE: &str = "file:///ws/m/";
 
 fn gen_pkg(tape: &mut Tape, name: &str, dep: Option<&str>) -> PkgSrc {
   let mut files: BTreeMap<String, Vec<String>> = BTreeMap::new();
@@ -243,20 +261,58 @@ fn gen_pkg(tape: &mut Tape, name: &str, dep: Option<&str>) -> PkgSrc {
     );
     exports.insert("./extra".to_string(), "./extra.ts".to_string());
   }
+  // an entrypoint written in JavaScript: untyped (the whole package then
+  // carries diagnostics) or typed through a self-types pragma
+  match tape.draw(Stream::World, 12) {
+    10 => {
+      files.insert(
+        "/legacy.js".into(),
+        vec!["export function legacy(a) { return a; }".to_string()],
+      );
+      exports.insert("./legacy".to_string(), "./legacy.js".to_string());
+    }
+    11 => {
+      files.insert(
+        "/legacy.js".into(),
+        vec![
+          "/* @ts-self-types=\"./legacy.d.ts\" */".to_string(),
+          "export function legacy(a) { return a; }".to_string(),
+        ],
+      );
+      files.insert(
+        "/legacy.d.ts".into(),
+        vec!["export declare function legacy(a: number): number;".to_string()],
+      );
+      exports.insert("./legacy".to_string(), "./legacy.js".to_string());
+    }
+    _ => {}
+  }
   PkgSrc {
     name: name.to_string(),
     version: "1.0.0".to_string(),
     files,
     exports,
+    member: false,
+    root_imports_extra: true,
+  }
+}
+
+fn lang_of(path: &str) -> Lang {
+  if path.ends_with(".d.ts") {
+    Lang::Dts
+  } else if path.ends_with(".js") {
+    Lang::Js
+  } else {
+    Lang::Ts
   }
 }
 
 fn world_of(pkgs: &[PkgSrc], with_extra_import: bool) -> World {
   let mut w = World::default();
-  for p in pkgs {
+  for p in pkgs.iter().filter(|p| !p.member) {
     let mut files = BTreeMap::new();
     for (path, lines) in &p.files {
-      let mut d = ModuleDesc::new("", Lang::Ts);
+      let mut d = ModuleDesc::new("", lang_of(path));
       d.body = Some(lines.join("\n"));
       files.insert(path.clone(), d);
     }
@@ -278,19 +334,53 @@ fn world_of(pkgs: &[PkgSrc], with_extra_import: bool) -> World {
   w.render_registry(&crate::checks::worlds::embed_info);
   let mut main = ModuleDesc::new(format!("{}main.ts", H_FILE), Lang::Ts);
   let mut body = String::new();
-  for (i, p) in pkgs.iter().enumerate() {
+  for (i, p) in pkgs.iter().enumerate().filter(|(_, p)| !p.member) {
     if i == 0 || with_extra_import {
       body.push_str(&format!("import * as p{} from \"jsr:{}@1\";\n", i, p.name));
     }
-    if i == 0 && p.exports.contains_key("./extra") {
+    if i == 0 && p.exports.contains_key("./extra") && p.root_imports_extra {
       body.push_str(&format!("import {{ extra }} from \"jsr:{}@1/extra\";\n", p.name));
+    }
+    if i == 0 && p.exports.contains_key("./legacy") {
+      body.push_str(&format!("import {{ legacy }} from \"jsr:{}@1/legacy\";\n", p.name));
     }
   }
   body.push_str("export const main = 1;\n");
   main.body = Some(body);
   w.add_desc(main);
   w.roots.push(format!("{}main.ts", H_FILE));
+  // the workspace member: local files, every export a root
+  for p in pkgs.iter().filter(|p| p.member) {
+    for (path, lines) in &p.files {
+      let mut d = ModuleDesc::new(
+        format!("{}{}", MEMBER_BASE, path.trim_start_matches('/')),
+        lang_of(path),
+      );
+      d.body = Some(lines.join("\n"));
+      w.add_desc(d);
+    }
+    for e in p.exports.values() {
+      w.roots.push(format!("{}{}", MEMBER_BASE, e.trim_start_matches("./")));
+    }
+  }
   w
+}
+
+fn members_of(pkgs: &[PkgSrc], versioned: bool) -> Vec<deno_graph::WorkspaceMember> {
+  pkgs
+    .iter()
+    .filter(|p| p.member)
+    .map(|p| deno_graph::WorkspaceMember {
+      base: deno_graph::ModuleSpecifier::parse(MEMBER_BASE).unwrap(),
+      name: p.name.as_str().into(),
+      version: if versioned {
+        Some(deno_semver::Version::parse_standard(&p.version).unwrap())
+      } else {
+        None
+      },
+      exports: p.exports.iter().map(|(k, v)| (k.clone(), v.clone())).collect(),
+    })
+    .collect()
 }
 
 fn apply_edit(tape: &mut Tape, pkgs: &mut Vec<PkgSrc>) -> String {
@@ -359,7 +449,7 @@ struct StepOut {
   label: String,
   with_cache: Snapshot,
   no_cache: Snapshot,
-  exports: BTreeMap<String, Vec<String>>, // nv -> entrypoint urls
+  exports: BTreeMap<String, (String, Vec<String>, Vec<String>)>, // nv -> (base url, entrypoint urls, modules holding their public API)
   cache_hits: u64,
   re_analysis: Vec<(String, Vec<String>, Vec<String>)>,
 }
@@ -368,16 +458,22 @@ fn fast_check(
   graph: &ModuleGraph,
   analyzer: &CapturingModuleAnalyzer,
   cache: Option<&SimFcCache>,
+  members: &[deno_graph::WorkspaceMember],
+  dts: bool,
 ) -> ModuleGraph {
   let mut g = graph.clone();
   let parser = analyzer.as_capturing_parser();
   g.build_fast_check_type_graph(BuildFastCheckTypeGraphOptions {
     fast_check_cache: cache.map(|c| c as &dyn FastCheckCache),
-    fast_check_dts: false,
+    fast_check_dts: dts && cache.is_none(),
     jsr_url_provider: Default::default(),
     es_parser: Some(&parser),
     resolver: None,
-    workspace_fast_check: deno_graph::WorkspaceFastCheckOption::Disabled,
+    workspace_fast_check: if members.is_empty() {
+      deno_graph::WorkspaceFastCheckOption::Disabled
+    } else {
+      deno_graph::WorkspaceFastCheckOption::Enabled(members)
+    },
   });
   g
 }
@@ -446,6 +542,27 @@ pub fn run_case(tape: &mut Tape, _tier: Tier, _p: &CaseParams) -> CaseOutcome {
   } else {
     pkgs.push(gen_pkg(tape, "@a/b", None));
   }
+  // a workspace member analysed together with the registry packages (one case
+  // in three): local files, every export a root of the build, its dependency
+  // the last registry package
+  let with_member = tape.draw(Stream::World, 3) == 2;
+  let member_versioned = tape.draw(Stream::World, 2) == 0;
+  let use_dts = tape.draw(Stream::World, 4) == 3;
+  if with_member {
+    let dep_name = pkgs.last().unwrap().name.clone();
+    if !two {
+      pkgs[0]
+        .files
+        .get_mut("/mod.ts")
+        .unwrap()
+        .push("export type X = { tag: \"x\"; v: number };".to_string());
+    }
+    let mut m = gen_pkg(tape, "@ws/m", Some(&dep_name));
+    m.member = true;
+    // a local package has no second JavaScript entrypoint variant with a
+    // registry import; keep what gen_pkg drew
+    pkgs.push(m);
+  }
   let extra_import = tape.draw(Stream::World, 2) == 1;
   let len = tape.range(Stream::World, 2, 4);
   let lossy = tape.draw(Stream::Faults, 3) == 2;
@@ -460,6 +577,14 @@ pub fn run_case(tape: &mut Tape, _tier: Tier, _p: &CaseParams) -> CaseOutcome {
     let l = if two && tape.draw(Stream::World, 5) == 4 {
       extra_import = !extra_import;
       format!("root: direct import of @c/d {}", if extra_import { "added" } else { "removed" })
+    } else if pkgs[0].exports.contains_key("./extra") && tape.draw(Stream::World, 6) == 5 {
+      // the set of used exports (= entrypoints = cache key) changes
+      pkgs[0].root_imports_extra = !pkgs[0].root_imports_extra;
+      format!(
+        "root: import of the ./extra export of {} {}",
+        pkgs[0].name,
+        if pkgs[0].root_imports_extra { "added" } else { "removed" }
+      )
     } else {
       apply_edit(tape, &mut pkgs)
     };
@@ -473,7 +598,10 @@ pub fn run_case(tape: &mut Tape, _tier: Tier, _p: &CaseParams) -> CaseOutcome {
   let worlds_c = worlds.clone();
   let labels_c = labels.clone();
   let scheds_c = scheds.clone();
+  let members = members_of(&pkgs, member_versioned);
+  let members_c = members.clone();
   let res = with_hash_seed(h1, false, move || {
+    let members = members_c;
     let mut tape = t0;
     let cache = SimFcCache {
       map: Default::default(),
@@ -493,9 +621,43 @@ pub fn run_case(tape: &mut Tape, _tier: Tier, _p: &CaseParams) -> CaseOutcome {
         return (None, tape, (0, 0, 0));
       };
       let hits_before = *cache.hits.borrow();
-      let g_c = fast_check(&graph, &analyzer, Some(&cache));
-      let g_n = fast_check(&graph, &analyzer, None);
+      let g_c = fast_check(&graph, &analyzer, Some(&cache), &members, use_dts);
+      let g_n = fast_check(&graph, &analyzer, None, &members, use_dts);
       let mut exports = BTreeMap::new();
+      // the public API of a JavaScript entrypoint that names a types
+      // dependency lives in that declaration file
+      let api_module = |url: String| -> String {
+        if let Ok(u) = deno_graph::ModuleSpecifier::parse(&url) {
+          if let Some(Module::Js(js)) = graph.get(&u) {
+            if !js.media_type.is_typed() {
+              if let Some(t) = js
+                .maybe_types_dependency
+                .as_ref()
+                .and_then(|t| t.dependency.maybe_specifier())
+              {
+                return graph.resolve(t).to_string();
+              }
+            }
+          }
+        }
+        url
+      };
+      for m in &members {
+        exports.insert(
+          m.as_nv().to_string(),
+          (
+            m.base.to_string(),
+            m.exports
+              .values()
+              .map(|p| format!("{}{}", m.base, p.strip_prefix("./").unwrap_or(p)))
+              .collect::<Vec<String>>(),
+            m.exports
+              .values()
+              .map(|p| api_module(format!("{}{}", m.base, p.strip_prefix("./").unwrap_or(p))))
+              .collect::<Vec<String>>(),
+          ),
+        );
+      }
       for (nv, _) in graph.packages.packages_with_deps() {
         let base = format!("{}{}/{}/", REGISTRY, nv.name, nv.version);
         let eps: Vec<String> = graph
@@ -507,7 +669,8 @@ pub fn run_case(tape: &mut Tape, _tier: Tier, _p: &CaseParams) -> CaseOutcome {
               .collect()
           })
           .unwrap_or_default();
-        exports.insert(nv.to_string(), eps);
+        let api = eps.iter().cloned().map(&api_module).collect();
+        exports.insert(nv.to_string(), (base, eps, api));
       }
       // recorded dependencies vs the emitted text re-analysed
       let mut re = vec![];
@@ -574,12 +737,20 @@ pub fn run_case(tape: &mut Tape, _tier: Tier, _p: &CaseParams) -> CaseOutcome {
   out.count("fault.cache_lost_set", stats.0);
   out.count("fault.cache_eviction", stats.1);
   out.count("probe.cache_hit", stats.2);
+  if with_member {
+    out.count("probe.workspace_member_analysed", 1);
+  }
+  if use_dts {
+    out.count("probe.declaration_files_compared_across_hash_seeds", 1);
+  }
   out.count("builds", steps.len() as u64);
   out.count("fast_checks", steps.len() as u64 * 3);
   // the second cache-less run under another hash seed
   let worlds_c = worlds.clone();
   let scheds_c = scheds.clone();
+  let members_c = members.clone();
   let res2 = with_hash_seed(h2, false, move || {
+    let members = members_c;
     let mut tape = Tape::replay(Default::default());
     let mut snaps = vec![];
     for (i, w) in worlds_c.iter().enumerate() {
@@ -589,7 +760,7 @@ pub fn run_case(tape: &mut Tape, _tier: Tier, _p: &CaseParams) -> CaseOutcome {
       let Some((graph, analyzer)) = built else {
         return None;
       };
-      snaps.push(snapshot(&fast_check(&graph, &analyzer, None)));
+      snaps.push(snapshot(&fast_check(&graph, &analyzer, None, &members, use_dts)));
     }
     Some(snaps)
   });
@@ -612,9 +783,21 @@ pub fn run_case(tape: &mut Tape, _tier: Tier, _p: &CaseParams) -> CaseOutcome {
       "world": worlds[i].to_json()})
   };
   let emitted = |s: &Snapshot| -> BTreeMap<String, FcSlot> {
+    // the declaration-file rendering exists only in the cache-less runs (a
+    // cache cannot be combined with it) and is compared between those
     s.iter()
-      .filter(|(_, v)| matches!(v, FcSlot::Module { .. }))
-      .map(|(k, v)| (k.clone(), v.clone()))
+      .filter_map(|(k, v)| match v {
+        FcSlot::Module { source, source_map, deps, .. } => Some((
+          k.clone(),
+          FcSlot::Module {
+            source: source.clone(),
+            source_map: source_map.clone(),
+            deps: deps.clone(),
+            dts: None,
+          },
+        )),
+        FcSlot::Error(_) => None,
+      })
       .collect()
   };
   for (i, st) in steps.iter().enumerate() {
@@ -676,11 +859,9 @@ pub fn run_case(tape: &mut Tape, _tier: Tier, _p: &CaseParams) -> CaseOutcome {
     }
     // all-or-nothing per package, in both states
     for (state, snap) in [("no-cache", &st.no_cache), ("with-cache", &st.with_cache)] {
-      for (nv, eps) in &st.exports {
-        let (name, v) = nv.rsplit_once('@').unwrap_or((nv.as_str(), ""));
-        let base = format!("{}{}/{}/", REGISTRY, name, v);
+      for (nv, (base, eps, api)) in &st.exports {
         let mods: Vec<(&String, &FcSlot)> =
-          snap.iter().filter(|(k, _)| k.starts_with(&base)).collect();
+          snap.iter().filter(|(k, _)| k.starts_with(base.as_str())).collect();
         if mods.is_empty() {
           continue; // not analysed
         }
@@ -694,7 +875,7 @@ pub fn run_case(tape: &mut Tape, _tier: Tier, _p: &CaseParams) -> CaseOutcome {
           } else {
             None
           }
-        } else if eps.iter().any(|e| !matches!(snap.get(e), Some(FcSlot::Module { .. }))) {
+        } else if api.iter().any(|e| !matches!(snap.get(e), Some(FcSlot::Module { .. }))) {
           Some("entrypoint-without-output")
         } else {
           None
@@ -758,6 +939,7 @@ pub fn run_case(tape: &mut Tape, _tier: Tier, _p: &CaseParams) -> CaseOutcome {
     "history": labels,
     "packages": pkgs.iter().map(|p| p.name.clone()).collect::<Vec<_>>(),
     "lossy_cache": lossy,
+    "workspace_member": with_member,
     "emitted_modules_last_step": steps.last().map(|s| emitted(&s.no_cache).len()),
   }));
   out
